@@ -13,7 +13,8 @@ from vf.oracles import bpv7
 from vf.oracles import cbor_walk as cw
 
 PROPERTY_ID = 'C02'
-RULE = ('seeded random bundles with explicit boundary sampling (every uint field at 0, 23/24, 255/256, 65535/65536, '
+RULE = ('[directed corpus also holds bundles of 21..300 canonical blocks across the CBOR head-size boundaries] ' +
+        'seeded random bundles with explicit boundary sampling (every uint field at 0, 23/24, 255/256, 65535/65536, '
         '2^32-1/2^32, 2^63, 2^64-1; all flag subsets incl. fragment/admin; CRC type per block; dtn:none, dtn://node/demux '
         'over the RFC 9171 demux alphabet, ipn:N.S; 0-4 extension blocks of types 6/7/10 and unknown types, arbitrary '
         'block numbers; status-report payloads with every assertion subset, with/without times and fragment fields) plus '
@@ -65,6 +66,10 @@ def _directed():
             out.append(item)
         else:
             out.append(dict(primary=dict(base_pri, flags=flags), blocks=[dict(pay)]))
+    # many canonical blocks: the item count of the bundle crosses the one-octet CBOR head (23/24) and the two-octet one (255/256)
+    for nblk in (21, 22, 23, 24, 25, 30, 254, 255, 256, 300):
+        blocks = [dict(type=192 + (idx % 5), num=idx + 2, flags=0, crc_type=idx % 3, data=bytes([idx & 0xFF]) * (idx % 4), crc=None) for idx in range(nblk - 1)]
+        out.append(dict(primary=dict(base_pri, crc_type=nblk % 3), blocks=blocks + [dict(pay)]))
     for eid in ('dtn:none', 'dtn://a/', 'dtn://a/b', 'dtn://node.example-1_x/svc/sub~!$&\'()*+,;=:@', 'ipn:0.0', 'ipn:1.2'):
         out.append(dict(primary=dict(base_pri, dest=eid, src=eid, report_to=eid), blocks=[dict(pay)]))
     return out
